@@ -99,7 +99,7 @@ func newC09() *c09 { return &c09{shapes: c09Catalogue(), twins: map[string]*c09T
 
 func (p *c09) ID() string { return "C09" }
 
-// Draw layout: [mode, shape|…, opt, api, plan, k…]
+// Draw layout: [mode, shape|…, opt, api, far-deadline flag, plan, k…]
 //   mode 0 = catalogue shape, 1 = random generated script in a loop wrapper
 //   plan 0 = never, 1 = at clock k, 2 = already expired, 3 = from inside host call j,
 //        4 = deadline on the simulated clock with slow host functions
@@ -119,13 +119,18 @@ func (p *c09) Enumerate(tier string) [][]int32 {
 			api := (si + opt) % 2
 			// the prefix that reaches the steady state is enumerated
 			// completely; both front ends alternate over shapes/flags
-			out = append(out, []int32{0, int32(si), int32(opt), int32(api), 2})
-			out = append(out, []int32{0, int32(si), int32(opt), int32(1 - api), 2})
+			out = append(out, []int32{0, int32(si), int32(opt), int32(api), 0, 2})
+			out = append(out, []int32{0, int32(si), int32(opt), int32(1 - api), 1, 2})
 			for k := 0; k <= lim; k++ {
-				out = append(out, []int32{0, int32(si), int32(opt), int32(api), 1, int32(k)})
+				// every third instant on a context that also has a deadline
+				dl := int32(0)
+				if (k+si)%3 == 0 {
+					dl = 1
+				}
+				out = append(out, []int32{0, int32(si), int32(opt), int32(api), dl, 1, int32(k)})
 			}
 			for j := 1; j <= 12; j++ {
-				out = append(out, []int32{0, int32(si), int32(opt), int32(1 - api), 3, int32(j)})
+				out = append(out, []int32{0, int32(si), int32(opt), int32(1 - api), int32(j % 2), 3, int32(j)})
 			}
 		}
 	}
@@ -205,6 +210,7 @@ func (p *c09) Run(c *verifsim.Chooser, st *Stats, render bool) *Outcome {
 	currentDesc.Store(family)
 	opt := c.Intn(2) == 0
 	useRun := c.Intn(2) == 1
+	farDeadline := c.Intn(2) == 1 // the context also reports a (distant) deadline
 	plan := c.Intn(5)
 	var k int64 = -1
 	hostCall := 0
@@ -239,6 +245,7 @@ func (p *c09) Run(c *verifsim.Chooser, st *Stats, render bool) *Outcome {
 	}
 
 	ctx := verifsim.NewSimContext(k)
+	ctx.FarDeadline = farDeadline
 	ctx.HardCap = need + c09B + 1000
 	ctx.PanicAfter = c09B
 	h := newHost(ctx)
@@ -272,7 +279,7 @@ func (p *c09) Run(c *verifsim.Chooser, st *Stats, render bool) *Outcome {
 		o.Sample = map[string]interface{}{
 			"script": text, "family": family, "optimizer": opt, "front_end": map[bool]string{true: "Run", false: "Execute"}[useRun],
 			"plan":   []string{"never", "cancel-at-clock", "already-expired", "cancel-inside-host-call", "deadline+slow-host"}[plan],
-			"k":      k, "host_call": hostCall, "slow_ticks": slow,
+			"k":      k, "host_call": hostCall, "slow_ticks": slow, "context_also_has_a_distant_deadline": farDeadline,
 			"result": r.String(), "ticks": ctx.Ticks, "context_polls": ctx.Polls, "ticks_after_cancel": ctx.TicksAfter, "host_calls": h.Calls,
 			"twin_result": tw.res.String(), "twin_ticks": tw.ticks,
 		}
